@@ -19,12 +19,15 @@ def cases(run: Run):
     rng = run.rng
     out = list(corpus(PID))
     for _ in range(run.n(60, 600)):
-        kind = rng.choice(["generic", "odd-second", "midnight", "leap-second", "late-join", "year-end"])
+        kind = rng.choice(["generic", "odd-second", "midnight", "leap-second", "late-join", "year-end", "leap-february"])
         y = rng.randint(2015, 2021)
         if kind == "midnight":
             start = datetime(y, rng.randint(1, 12), rng.randint(1, 27), 23, rng.randint(50, 59), rng.choice([0, 13, 47]))
         elif kind == "leap-second":
             start = datetime(2016, 12, 31, 23, rng.randint(40, 58), rng.choice([0, 30]))
+        elif kind == "leap-february":
+            # January and February of a leap year: the day count must not yet include the leap day
+            start = datetime(rng.choice([2016, 2020]), rng.choice([1, 2, 2, 2, 3]), rng.randint(1, 29), rng.randint(0, 23), rng.randint(0, 59), rng.choice([0, 17]))
         elif kind == "year-end":
             start = datetime(y, 12, 31, 23, rng.randint(45, 59), rng.choice([0, 21]))
         else:
@@ -144,6 +147,27 @@ def oracle(run: Run, c, impl):
         if abs(speed - expect) > 1e-6 * expect + float(Earth.spin_rate) * float(np.linalg.norm(e[:3])) * 4e-6 + 1e-9:
             fails.append(("inertial-velocity", f"inertial speed {speed:.9f} km/s, Earth rotation at that point gives {expect:.9f} km/s ({st['when']})"))
             break
+    # the absolute orientation, judged without the code's own sidereal time (a day-of-year slip turns the Earth by a degree and leaves every
+    # round trip through the code's frames intact): the site's inertial right ascension is the 1982 mean sidereal time of the date plus its
+    # east longitude, less the general precession in right ascension since J2000 (m + n sin(ra) tan(dec)); what is left - nutation, UT1-UTC,
+    # polar motion, second-order precession - stays below 6e-4 rad for sites within 60 deg of the equator
+    if not fails and abs(c["lat"]) < 60.0:
+        for st in i["steps"]:
+            d0 = datetime.fromisoformat(st["when"])
+            x = np.array(st["eci"])
+            jd = d0.toordinal() + 1721424.5 + (d0.hour * 3600 + d0.minute * 60 + d0.second + d0.microsecond * 1e-6) / 86400.0
+            tc = (jd - 2451545.0) / 36525.0
+            gmst = math.radians(((67310.54841 + (876600.0 * 3600 + 8640184.812866) * tc + 0.093104 * tc * tc - 6.2e-6 * tc**3) % 86400.0) / 240.0)
+            ra, dec = math.atan2(x[1], x[0]), math.atan2(x[2], math.hypot(x[0], x[1]))
+            lon_e = math.atan2(want[1], want[0])
+            years = tc * 100.0
+            expect_ra = gmst + lon_e - (2.2362e-4 + 9.717e-5 * math.sin(ra) * math.tan(dec)) * years
+            off = (ra - expect_ra + math.pi) % (2 * math.pi) - math.pi
+            run.worse("oracle:sidereal-absolute", abs(off))
+            if not abs(off) < 6e-4:
+                fails.append(("sidereal-angle", f"{c['kind']}: site ({c['lat']:.3f}, {c['lon']:.3f}) at {st['when']}: its inertial right ascension is {off:.6g} rad "
+                                                f"({off * 6378 * math.cos(dec):.1f} km along its parallel) from the mean sidereal time of that date plus its longitude"))
+                break
     # rigid rotation, judged without any frame conversion of the code: between consecutive epochs a point at distance rho from the rotation axis
     # moves along a chord 2 rho sin(omega dt / 2), whatever the direction of the axis (precession and nutation move the axis, not the distance)
     if not fails:
@@ -203,7 +227,7 @@ def search(run: Run):
 def main():
     run = Run(
         PID,
-        ["RV.Props.C11", "RV.Bridge.Time"],
+        ["RV.Props.C11", "RV.Bridge.Time", "RV.Bridge.Conversions"],
         ["RV/Model/Frames.lean", "RV/Model/Time.lean"],
         "Lean 4 corollaries of the frame-inverse theorems (C04) and of the Julian-date round trip (C05) for the Terrestrial model + bit-exact tie of the site's reference epoch + "
         "the real dynamicsFactory/Terrestrial.propagate path evaluated against the configured geodetic position at every step",
